@@ -23,6 +23,7 @@ import MW.Lemmas.PendHistCredEx
 import MW.Lemmas.PendHistNotifyEx
 import MW.Lemmas.PendHistComposeEx
 import MW.Lemmas.PendHistNotifySpecEx
+import MW.Lemmas.PendHistSeenEx
 import MW.Lemmas.TxmgrCodecRec
 namespace MW.Props.C09
 open MW MW.Model.Ledger MW.Lemmas.LedgerPending
@@ -800,6 +801,62 @@ example : ∀ x ∈ MW.Lemmas.PendHist.worldsH MW.Lemmas.PendHist.exE MW.Lemmas.
     | .recv t => MW.Lemmas.PendHist.Cred.RecvDomC MW.Lemmas.PendHist.exRankH MW.Lemmas.PendHist.exE x.1 t
     | ev => MW.Lemmas.PendHist.HOK MW.Lemmas.PendHist.exRankH MW.Lemmas.PendHist.exE x.1 ev :=
   MW.Lemmas.PendHist.CredRb.exDomainF_match
+
+-- ------------------------------------------------------------------ Round 7: the seen-set as STATE of the history world
+section SeenState
+open MW.Lemmas.PendHist MW.Lemmas.PendHist.Cred MW.Lemmas.PendHist.CredRb MW.Lemmas.PendHist.Seen MW.Spec.Pending
+
+/-- THE SEEN-SET INVARIANT IS MAINTAINED.  World `HWS` = the history world + the ghost set `dead` of the ids that left
+    "pending ∪ confirmed" (`stepS`); `SeenSt`: the follower's seen-set `Vol.mempool` ⊆ pending ∪ confirmed ∪ dead.  Every event
+    inside `HOKS` keeps it (the naive "seen ⊆ pending ∪ confirmed" is false of model and code: a conflict-purged
+    transaction keeps its id in the seen-set) -/
+theorem seen_state_step (rank : TxId → Nat) (E : HEnv) (x : HWS) (H : HInvC rank E x.w) (hs : SeenSt x) (ev : HEv)
+    (D : HOKS rank E x ev) : SeenSt (stepS E x ev) := seen_step H hs ev D
+
+/-- the receive domain over that world implies the old one: `seen` is a consequence of the state invariant + `alive`,
+    `fresh` of `conf` -/
+theorem recv_domain_of_seen_state (rank : TxId → Nat) (E : HEnv) (x : HWS) (t : Tx) (hs : SeenSt x)
+    (D : RecvDomS rank E x t) : RecvDomC rank E x.w t := D.toC hs
+
+/-- **PENDING / CREDITS REFINE, SEEN-SET AS STATE** (`pending_refines` and `credit_refines` restated).  From a world with
+    `HInvC` whose seen-set satisfies `SeenSt` (e.g. after a restart, `seenSt_restart`), for EVERY history inside `HOKS` —
+    `HOK` where the receive domain has no `seen` / `fresh` clause (instead: `alive`, the node does not re-deliver a
+    vanished transaction the follower still remembers, and `conf`, a delivered transaction that is on the wallet's chain
+    has been seen) and a volatile change must produce a seen-set inside the invariant — after the history: `HInvC`, the
+    seen-set invariant, and the four observations of `pending_refines` / `credit_refines`.  The model and specification
+    components are those of `runH` (`runS_w`). -/
+theorem pending_refines_seen (rank : TxId → Nat) (E : HEnv) (x : HWS) (evs : List HEv) (H : HInvC rank E x.w)
+    (hs : SeenSt x) (hD : ∀ y ∈ worldsS E x evs, HOKS rank E y.1 y.2) :
+    (runS E x evs).w = runH E x.w evs ∧ HInvC rank E (runS E x evs).w ∧ SeenSt (runS E x evs) ∧
+    (∀ id, (AMap.get (runS E x evs).w.s.pending id).isSome = (runS E x evs).w.sp.pend.any (fun t => t.id = id)) ∧
+    (∀ c i, spentByUnmined (runS E x evs).w.s c i = spentByPending (runS E x evs).w.sp.pend c i) ∧
+    (∀ op id, Listed (runS E x evs).w.s op id ↔ ∃ t ∈ (runS E x evs).w.sp.pend, t.id = id ∧ Spends t op) ∧
+    (∀ id j amt, (∃ cr, AMap.get (runS E x evs).w.s.pendCred (id, j) = some cr ∧ cr.amt = amt) ↔
+      (id, j, amt) ∈ pendingCredits E.env (runS E x evs).w.sp.pend) :=
+  have h := hoks_run evs x H hs hD
+  ⟨runS_w E evs x, h.1, h.2.1, h.1.inv.rel.ids_eq, h.1.inv.rel.sbu, h.1.inv.rel.listed, h.1.cred.pcred h.1.inv.rel.nodup⟩
+
+/-- every history inside `HOKS` is, projected to the world without ghost state, inside the domain `HOKf` of
+    `credit_refines` (hence inside `HOK` of `pending_refines` with the residue clause a theorem) -/
+theorem seen_domain_sound (rank : TxId → Nat) (E : HEnv) (x : HWS) (evs : List HEv) (H : HInvC rank E x.w)
+    (hs : SeenSt x) (hD : ∀ y ∈ worldsS E x evs, HOKS rank E y.1 y.2) :
+    ∀ y ∈ worldsH E x.w evs, HOKf rank E y.1 y.2 := (hoks_run evs x H hs hD).2.2
+
+/-- THE OLD THEOREMS ARE COROLLARIES: a history inside the old domain `HOKf` (per-step `seen` / `fresh`) whose volatile
+    events keep the seen-set inside the invariant is inside `HOKS`, whatever the ghost set; so `credit_refines` /
+    `pending_refines` on such a history are instances of `pending_refines_seen` -/
+theorem seen_domain_complete (rank : TxId → Nat) (E : HEnv) (x : HWS) (evs : List HEv) (H : HInvC rank E x.w)
+    (hD : ∀ y ∈ worldsH E x.w evs, HOKf rank E y.1 y.2)
+    (hV : ∀ y ∈ worldsS E x evs, ∀ v, y.2 = .vol v → SeenOK y.1 v.mempool) :
+    ∀ y ∈ worldsS E x evs, HOKS rank E y.1 y.2 := hokf_embeds evs x H hD hV
+
+/-- non-vacuity: the round-6 history from the fresh wallet, empty ghost set: invariant at the start, inside `HOKS`;
+    after it the seen-set is {T1, T2} (both pending again), the ghost set {C2} (coinbase of the disconnected B2) -/
+example : HInvC exRankH exE exX0.w ∧ SeenSt exX0 ∧ (∀ y ∈ worldsS exE exX0 exEvs6, HOKS exRankH exE y.1 y.2) :=
+  ⟨exHInvC0, exSeen0, exDomainS⟩
+example : (runS exE exX0 exEvs6).w.v.mempool = ["T1", "T2"] ∧ (runS exE exX0 exEvs6).dead = ["C2"] ∧
+    (runS exE exX0 exEvs6).w.sp.pend.map (·.id) = ["T2", "T1"] := exRunS_obs
+end SeenState
 
 /-- the former schematic statement over driver strings (kept for reference; `pending_refines` is its typed form) -/
 def C09_full_history_refinement (Domain : List (List String) → Prop)
